@@ -781,4 +781,204 @@ theorem not_open_after_revoke (g : G) (i : Nat) : i ∉ (gstep g (.revoke i)).op
   rintro ⟨v, ⟨⟨_, hne⟩, _⟩, rfl⟩
   simp at hne
 
+/-! ## the key cache of a long-lived tree -/
+
+theorem hasGen_lt {h : List Bool} {x : Nat} (hx : hasGen h x = true) : x < h.length := by
+  simp only [hasGen, List.getD_eq_getElem?_getD] at hx
+  by_cases hl : x < h.reverse.length
+  · simpa using hl
+  · rw [List.getElem?_eq_none (by omega)] at hx
+    simp at hx
+
+theorem hasGen_cons {h : List Bool} {x : Nat} (b : Bool) (hx : hasGen h x = true) : hasGen (b :: h) x = true := by
+  have hl := hasGen_lt hx
+  simp only [hasGen, List.getD_eq_getElem?_getD, List.reverse_cons] at hx ⊢
+  rw [List.getElem?_append_left (by simpa using hl)]
+  exact hx
+
+theorem hasGen_replicate {n x : Nat} (hx : x < n) : hasGen (List.replicate n true) x = true := by
+  simp [hasGen, List.getD_eq_getElem?_getD, hx]
+
+/-- pigeonhole: a duplicate-free list of naturals below `n` of length `n` contains every natural below `n` -/
+theorem nodup_full : ∀ (n : Nat) (l : List Nat), l.Nodup → (∀ x ∈ l, x < n) →
+    l.length ≤ n ∧ (l.length = n → ∀ g, g < n → g ∈ l)
+  | 0, l, _, hb => by
+    cases l with
+    | nil => simp
+    | cons a r => exact absurd (hb a (List.mem_cons_self ..)) (by omega)
+  | n + 1, l, hnd, hb => by
+    by_cases hn : n ∈ l
+    · have hnd' : (l.erase n).Nodup := hnd.erase n
+      have hb' : ∀ x ∈ l.erase n, x < n := by
+        intro x hx
+        have hxl := List.mem_of_mem_erase hx
+        have hne : x ≠ n := fun e => by
+          subst e
+          exact (List.Nodup.mem_erase_iff hnd).mp hx |>.1 rfl
+        have := hb x hxl
+        omega
+      have ih := nodup_full n (l.erase n) hnd' hb'
+      have hlen : (l.erase n).length = l.length - 1 := List.length_erase_of_mem hn
+      have hpos : 0 < l.length := List.length_pos_of_mem hn
+      refine ⟨by omega, fun he g hg => ?_⟩
+      by_cases hgn : g = n
+      · subst hgn; exact hn
+      · exact List.mem_of_mem_erase (ih.2 (by omega) g (by omega))
+    · have hb' : ∀ x ∈ l, x < n := by
+        intro x hx
+        have := hb x hx
+        have hne : x ≠ n := fun e => hn (e ▸ hx)
+        omega
+      have ih := nodup_full n l hnd hb'
+      exact ⟨by omega, fun he => by omega⟩
+
+def CacheInv (h : List Bool) (c : List Nat) : Prop := c.Nodup ∧ ∀ x ∈ c, hasGen h x = true
+
+theorem refresh_mem_iff {h : List Bool} {c : List Nat} (hi : CacheInv h c) (g : Nat) :
+    g ∈ refresh h c ↔ hasGen h g = true := by
+  unfold refresh
+  split
+  · rename_i hlen
+    simp only [beq_iff_eq] at hlen
+    constructor
+    · exact hi.2 g
+    · intro hg
+      exact (nodup_full h.length c hi.1 (fun x hx => hasGen_lt (hi.2 x hx))).2 hlen g (hasGen_lt hg)
+  · simp only [List.mem_append, List.mem_filter, List.mem_range, Bool.and_eq_true, Bool.not_eq_true',
+      List.contains_eq_mem, decide_eq_false_iff_not]
+    constructor
+    · rintro (hc | ⟨_, hg, _⟩)
+      · exact hi.2 g hc
+      · exact hg
+    · intro hg
+      by_cases hc : g ∈ c
+      · exact Or.inl hc
+      · exact Or.inr ⟨hasGen_lt hg, hg, hc⟩
+
+theorem refresh_inv {h : List Bool} {c : List Nat} (hi : CacheInv h c) : CacheInv h (refresh h c) := by
+  refine ⟨?_, fun x hx => (refresh_mem_iff hi x).mp hx⟩
+  unfold refresh
+  split
+  · exact hi.1
+  · rw [List.nodup_append]
+    refine ⟨hi.1, (List.nodup_range).filter _, ?_⟩
+    intro a ha b hb
+    simp only [List.mem_filter, Bool.and_eq_true, Bool.not_eq_true', List.contains_eq_mem,
+      decide_eq_false_iff_not] at hb
+    intro e; subst e; exact hb.2.2 ha
+
+theorem vstep_len {me : Nat} {g : G} {h h' : List Bool} {it : Item} (hv : vstep me g h it = some h')
+    (hl : h.length = g.ngen) : h'.length = (gstep g it).ngen := by
+  cases it with
+  | enter a c =>
+    simp only [vstep] at hv
+    split at hv
+    · split at hv
+      · split at hv
+        · cases hv; simp [gstep, G.ngen]
+        · cases hv
+      · cases hv
+    · cases hv; simpa [gstep, G.ngen] using hl
+  | rotate rm ak ik old =>
+    simp only [vstep] at hv
+    split at hv
+    · cases hv; simp [gstep, G.ngen] at *; exact hl
+    · split at hv
+      · split at hv
+        · cases hv; simp [gstep, G.ngen] at *; exact hl
+        · cases hv
+      · cases hv
+  | invite i o c => simp only [vstep] at hv; cases hv; simpa [gstep, G.ngen] using hl
+  | revoke i => simp only [vstep] at hv; cases hv; simpa [gstep, G.ngen] using hl
+  | drop a => simp only [vstep] at hv; cases hv; simpa [gstep, G.ngen] using hl
+  | grant a => simp only [vstep] at hv; cases hv; simpa [gstep, G.ngen] using hl
+  | content t gen d => simp only [vstep] at hv; cases hv; simpa [gstep, G.ngen] using hl
+  | nop => simp only [vstep] at hv; cases hv; simpa [gstep, G.ngen] using hl
+
+/-- a view never loses a generation -/
+theorem vstep_mono {me : Nat} {g : G} {h h' : List Bool} {it : Item} (hv : vstep me g h it = some h')
+    (hl : h.length = g.ngen) {x : Nat} (hx : hasGen h x = true) : hasGen h' x = true := by
+  cases it with
+  | enter a c =>
+    simp only [vstep] at hv
+    split at hv
+    · split at hv
+      · split at hv
+        · cases hv; exact hasGen_replicate (hl ▸ hasGen_lt hx)
+        · cases hv
+      · cases hv
+    · cases hv; exact hx
+  | rotate rm ak ik old =>
+    simp only [vstep] at hv
+    split at hv
+    · cases hv; exact hasGen_cons _ hx
+    · split at hv
+      · split at hv
+        · cases hv; exact hasGen_cons _ hx
+        · cases hv
+      · cases hv
+  | invite i o c => simp only [vstep] at hv; cases hv; exact hx
+  | revoke i => simp only [vstep] at hv; cases hv; exact hx
+  | drop a => simp only [vstep] at hv; cases hv; exact hx
+  | grant a => simp only [vstep] at hv; cases hv; exact hx
+  | content t gen d => simp only [vstep] at hv; cases hv; exact hx
+  | nop => simp only [vstep] at hv; cases hv; exact hx
+
+theorem treeFrom_inv (me : Nat) : ∀ (evs : List Ev) (g : G) (h : List Bool) (c : List Nat) (h' : List Bool) (c' : List Nat),
+    h.length = g.ngen → CacheInv h c → treeFrom me g h c evs = some (h', c') →
+    CacheInv h' c' ∧ viewFrom me g h (evItems evs) = some h'
+  | [], _, _, _, _, _, _, hi, hr => by
+    simp only [treeFrom, Option.some.injEq, Prod.mk.injEq] at hr
+    obtain ⟨rfl, rfl⟩ := hr
+    exact ⟨hi, rfl⟩
+  | .touch :: rest, g, h, c, h', c', hl, hi, hr => by
+    simp only [treeFrom] at hr
+    exact treeFrom_inv me rest g h (refresh h c) h' c' hl (refresh_inv hi) hr
+  | .item it :: rest, g, h, c, h', c', hl, hi, hr => by
+    simp only [treeFrom] at hr
+    cases hv : vstep me g h it with
+    | none => simp [hv] at hr
+    | some h1 =>
+      simp only [hv] at hr
+      have := treeFrom_inv me rest (gstep g it) h1 c h' c' (vstep_len hv hl)
+        ⟨hi.1, fun x hx => vstep_mono hv hl (hi.2 x hx)⟩ hr
+      refine ⟨this.1, ?_⟩
+      simp only [evItems, viewFrom, hv]
+      exact this.2
+
+theorem treeFrom_exists (me : Nat) : ∀ (evs : List Ev) (g : G) (h : List Bool) (c : List Nat) (h' : List Bool),
+    viewFrom me g h (evItems evs) = some h' → ∃ c', treeFrom me g h c evs = some (h', c')
+  | [], _, _, c, _, hr => by
+    simp only [evItems, viewFrom, Option.some.injEq] at hr
+    subst hr; exact ⟨c, rfl⟩
+  | .touch :: rest, g, h, c, h', hr => by
+    simp only [treeFrom]
+    exact treeFrom_exists me rest g h (refresh h c) h' hr
+  | .item it :: rest, g, h, c, h', hr => by
+    simp only [evItems, viewFrom] at hr
+    cases hv : vstep me g h it with
+    | none => simp [hv] at hr
+    | some h1 =>
+      simp only [hv] at hr
+      simp only [treeFrom, hv]
+      exact treeFrom_exists me rest (gstep g it) h1 c h' hr
+
+theorem treeFrom_snoc_touch (me : Nat) : ∀ (evs : List Ev) (g : G) (h : List Bool) (c : List Nat),
+    treeFrom me g h c (evs ++ [.touch]) = (treeFrom me g h c evs).map (fun r => (r.1, refresh r.1 r.2))
+  | [], _, _, _ => by simp [treeFrom]
+  | .touch :: rest, g, h, c => by simp only [List.cons_append, treeFrom]; exact treeFrom_snoc_touch me rest g h _
+  | .item it :: rest, g, h, c => by
+    simp only [List.cons_append, treeFrom]
+    cases vstep me g h it with
+    | none => rfl
+    | some h1 => exact treeFrom_snoc_touch me rest _ h1 c
+
+theorem evItems_snoc_touch : ∀ (evs : List Ev), evItems (evs ++ [.touch]) = evItems evs
+  | [] => rfl
+  | .touch :: r => by simp [evItems, evItems_snoc_touch r]
+  | .item it :: r => by simp [evItems, evItems_snoc_touch r]
+
+theorem cacheInv0 (me owner : Nat) : CacheInv (view0 me owner) (refresh (view0 me owner) []) :=
+  refresh_inv ⟨List.nodup_nil, fun _ hx => by cases hx⟩
+
 end AnySync.Keys
